@@ -27,6 +27,7 @@ EXPLANATION = (
     "(CAP) the cap grows on every sieve round and the loop ends only on a complete "
     "solution."
     "Round 7: (OPTIONS) the caller's objective and outer-product option reach the DP as given; (PRESIMP) the batch-index simplification compares the index's carriers with the number of tensors, never the appearance table. "
+    'Round 8: (OPTIONS) also the network (inputs, output, size_dict) reaches the processor as given. '
 )
 ASSUMPTIONS = (
     "step costs are monotone (a tree's score is >= the scores of its subtrees), which is "
